@@ -11,6 +11,7 @@ every state reachable from the initial one) guarantees the latter.
 -/
 import Mqtt.Proofs.BrokerLifeWillKept
 import Mqtt.Proofs.BrokerRefineCor
+import Mqtt.Proofs.BrokerRefineFail
 
 namespace Mqtt.Properties.C09
 open Mqtt.Iface.Broker Mqtt.Model.Broker Mqtt.Proofs.BrokerLife
@@ -394,5 +395,31 @@ theorem C09_take_over_is_an_end (es : List Ev) (hok : okRun {} es = true) (c c0 
       (Mqtt.Spec.Broker.takeOver (specRun {} es).1 (.connect req) a).1 c req).isSome, ?_, ?_⟩
     · rw [c1, t1]; rfl
     · rw [Mqtt.Proofs.BrokerRefine.spec_step_eq, c2, t2]; rfl
+
+/-! ### a CONNECT whose answer cannot be written -/
+
+/-- **A connection that never came up leaves no will.**  When the answer to a first packet cannot be
+written (`handleConnection` with a failing `writeMessage`; model `connectFail`), everything the broker
+does is: the ends of the connections the CONNECT takes over (MQTT-3.1.4-2 - with THEIR wills, as for
+any take-over), then the close of the new connection.  The will carried by the unanswerable CONNECT
+itself is never published - not now (this statement) and not later: no connection exists for it
+(`connectFail` leaves the connection table as `takeOver` left it), and a later CONNECT of the client
+replaces the stored will (`Session.Update`, C09's resumed-session statements). -/
+theorem C09_unanswerable_connect_no_will (b : B) (c : Nat) (f : First) (a : Bool) :
+    (connectFail b c f a).2 = (takeOver b f a).2 ++ [.closed c] ∧
+    (connectFail b c f a).1.conns = (takeOver b f a).1.conns ∧
+    (connectFail b c f a).1.topics = (takeOver b f a).1.topics := by
+  rw [Mqtt.Proofs.BrokerRefine.connectFail_eq]
+  cases h : accepts f a with
+  | false =>
+    rw [Mqtt.Proofs.BrokerRefine.firstFail_refused _ c f a h]
+    exact ⟨rfl, rfl, rfl⟩
+  | true =>
+    cases f with
+    | garbage => simp [accepts] at h
+    | other t => simp [accepts] at h
+    | connect req =>
+      rw [Mqtt.Proofs.BrokerRefine.firstFail_accepted _ c req a h]
+      exact ⟨rfl, Mqtt.Proofs.BrokerRefine.failed_conns _ c req, Mqtt.Proofs.BrokerRefine.failed_topics _ c req⟩
 
 end Mqtt.Properties.C09
